@@ -1,5 +1,206 @@
 """C04 - certificates are valid witnesses and appear exactly when promised."""
+import time
+
 from solvers_common import *
+
+
+# ------------------------------------------------------------------ label route (Properties/C04labels.v)
+# Mode `components`: the connected-component computer of /repo (exported under cfg(crustabri_verif))
+# against the extracted LABEL ROUTE functions of Proofs/LabelRouteDefs.v, on stores built by update
+# histories, plus an oracle on the implementation's output alone.
+
+
+def _kv(tokens):
+    """'a=b' tokens -> list of (a, b)."""
+    return [tuple(t.split("=", 1)) for t in tokens if t]
+
+
+def _parse_group(lines, prefix):
+    """The lines of one run (iteration: prefix '', merged: prefix 'm<j> '), already stripped of the
+    prefix.  Returns (components, panicked, ended); a component = dict(args, atts, local, glob)."""
+    comps, cur, panicked, ended = [], None, False, False
+    for l in lines:
+        t = l.split(" ")
+        if t[0] == "cc" and len(t) >= 3 and t[2] == "panic":
+            panicked = True
+        elif t[0] == "cc":
+            body = " ".join(t[2:])
+            a, _, b = body.partition(" ; ")
+            args = [tuple(x.split(":", 1)) for x in a.split(" ")[1:] if x]
+            atts = [tuple(x.split(">", 1)) for x in b.split(" ")[1:] if x]
+            cur = {"k": t[1], "args": args, "atts": atts, "local": None, "glob": None}
+            comps.append(cur)
+        elif t[0] == "local" and cur is not None and t[1] == cur["k"]:
+            cur["local"] = _kv(t[2:])
+        elif t[0] == "global" and cur is not None and t[1] == cur["k"]:
+            cur["glob"] = _kv(t[2:])
+        elif t[0] == "end":
+            ended = True
+    return comps, panicked, ended
+
+
+def label_route_oracle(c):
+    """Judges the implementation's output alone.  Returns (verdict, n_components, n_fcc1) where the
+    verdict is None or a string describing the first failure."""
+    outs = c.outs
+    if any(o.startswith("op panic") for o in outs):
+        return "an update operation of the public API panicked", 0, 0
+    orig = atts0 = maxid = None
+    groups = {}
+    order = []
+    for o in outs:
+        if o.startswith("maxid "):
+            maxid = o[6:]
+        elif o.startswith("args ") or o == "args":
+            orig = [tuple(x.split(":", 1)) for x in o.split(" ")[1:] if x]
+        elif o.startswith("atts ") or o == "atts":
+            atts0 = [tuple(x.split(">", 1)) for x in o.split(" ")[1:] if x]
+        else:
+            p = ""
+            body = o
+            if o[0] == "m" and " " in o and o.split(" ", 1)[0][1:].isdigit():
+                p, body = o.split(" ", 1)
+            if p not in groups:
+                groups[p] = []
+                order.append(p)
+            groups[p].append(body)
+    if orig is None or atts0 is None:
+        return "no observation of the store", 0, 0
+    merged_lists = [l.split(" ")[1:] for l in c.ins if l.startswith("merged")]
+    merged_lists = [[x for x in l if x] for l in merged_lists]
+    orig_set = set(orig)
+    live = [i for i, _ in orig]
+    ncomp = nf = 0
+    for p in order:
+        comps, panicked, ended = _parse_group(groups[p], p)
+        ncomp += len(comps)
+        what = "iter_connected_components" if p == "" else "merged_connected_components_of #%s" % p[1:]
+        if panicked:
+            j = int(p[1:]) if p else -1
+            if p and maxid == "-" and not orig and j < len(merged_lists) and not merged_lists[j] and not comps:
+                nf += 1      # F-cc-1: empty list on the framework that never had an argument
+                continue
+            return "%s: panic" % what, ncomp, nf
+        if not ended:
+            return "%s: output not terminated" % what, ncomp, nf
+        seen = {}
+        mapped_atts = []
+        for cc in comps:
+            k = cc["k"]
+            if cc["local"] is None or cc["glob"] is None:
+                return "%s: component %s without translation lines" % (what, k), ncomp, nf
+            labels = [l for _, l in cc["args"]]
+            if len(set(labels)) != len(labels):
+                return "%s: component %s has two arguments with the same label" % (what, k), ncomp, nf
+            if [i for i, _ in cc["args"]] != [str(i) for i in range(len(cc["args"]))]:
+                return "%s: component %s is not numbered 0..k-1" % (what, k), ncomp, nf
+            glob = dict(cc["glob"])
+            local = dict(cc["local"])
+            if list(local.keys()) != live:
+                return "%s: component %s: local line does not range over the arguments of the framework" % (what, k), ncomp, nf
+            for i, l in cc["args"]:
+                gv = glob.get(i)
+                if gv is None or gv == "-":
+                    return "%s: component %s: argument %s (label %s) not found in the framework by its label" % (what, k, i, l), ncomp, nf
+                gid, _, gl = gv.partition(":")
+                if (gid, gl) not in orig_set:
+                    return "%s: component %s: %s -> %s is not an (id,label) pair of the caller's argument set" % (what, k, i, gv), ncomp, nf
+                if gl != l:
+                    return "%s: component %s: %s has label %s but is translated to %s" % (what, k, i, l, gv), ncomp, nf
+                if local.get(gid) != i:
+                    return "%s: component %s: global(%s) = %s but local(%s) = %s" % (what, k, i, gid, gid, local.get(gid)), ncomp, nf
+                if gid in seen:
+                    return "%s: argument %s is in the components %s and %s" % (what, gid, seen[gid], k), ncomp, nf
+                seen[gid] = k
+            for a, li in cc["local"]:
+                if li != "-":
+                    gv = glob.get(li)
+                    if gv is None or gv.partition(":")[0] != a:
+                        return "%s: component %s: local(%s) = %s but global(%s) = %s" % (what, k, a, li, li, gv), ncomp, nf
+            for a, b in cc["atts"]:
+                if a not in glob or b not in glob:
+                    return "%s: component %s: attack %s>%s over an unknown local id" % (what, k, a, b), ncomp, nf
+                mapped_atts.append((glob[a].partition(":")[0], glob[b].partition(":")[0]))
+        if sorted(seen.keys(), key=int) != sorted(live, key=int):
+            return "%s: the components do not partition the live arguments (%s vs %s)" % (what, sorted(seen.keys(), key=int), live), ncomp, nf
+        if sorted(mapped_atts) != sorted(atts0):
+            return "%s: the attacks of the components, translated back, are not the attacks of the framework" % what, ncomp, nf
+        if p:
+            j = int(p[1:])
+            if j < len(merged_lists) and comps:
+                first = set(g.partition(":")[0] for _, g in comps[0]["glob"])
+                if not set(merged_lists[j]) <= first:
+                    return "%s: a listed argument is not in the merged component" % what, ncomp, nf
+    return None, ncomp, nf
+
+
+def label_route_stage(ctx):
+    t0 = time.time()
+    h = build_harness(ctx)
+    d = build_driver(ctx)
+    if not h or not d:
+        return
+    total = 6000 if ctx.thorough else 600
+    shards = run_mode(ctx, h, d, "components", total)
+    n_cases = n_comp = n_fcc1 = n_sparse = n_multi = 0
+    scen = {}
+    corr = None
+    sample = None
+    for sh_ in shards:
+        if isinstance(sh_[0], str):
+            ctx.violation("label route: %s: %s" % (sh_[0], sh_[1][1][-500:]), "command: %s\n" % sh_[2], found_input=False)
+            continue
+        impl, models, _ = sh_
+        mm = {c.id: c for c in models[0]}
+        for c in impl:
+            n_cases += 1
+            scen[c.kind] = scen.get(c.kind, 0) + 1
+            v, nc, nf = label_route_oracle(c)
+            n_comp += nc
+            n_fcc1 += nf
+            ids = [int(x.split(":")[0]) for o in c.outs if o.startswith("args ") for x in o.split(" ")[1:] if x]
+            if ids and ids != list(range(len(ids))):
+                n_sparse += 1
+            if any(o.startswith("cc 1 ") for o in c.outs):
+                n_multi += 1
+            if sample is None and ids and ids != list(range(len(ids))) and any(o.startswith("cc 1 ") for o in c.outs):
+                sample = {"kind": c.kind, "input": c.ins[:14], "output": c.outs[:9]}
+            if v is not None:
+                ctx.violation("label route (%s): %s" % (c.kind, v), c.text(), found_input=True, key="labels:" + v.split(":")[0][:40])
+                continue
+            m = mm.get(c.id)
+            if m is None:
+                corr = corr or (c, "the model produced no output for the case", None)
+                continue
+            dd = first_diff(c.outs, m.outs)
+            if dd is not None:
+                corr = corr or (c, "line %d: impl `%s` model `%s`" % (dd[0], dd[1][:160], dd[2][:160]), m)
+    if corr and not any(w.startswith("label route") for w, _, _ in ctx.violations):
+        c, why, m = corr
+        ctx.violation("correspondence Proofs/LabelRouteDefs (label route) vs ConnectedComponentsComputer no longer checks (%s); the oracle on the implementation's output found no failing store among %d"
+                      % (why, n_cases), c.text() + "".join("MODEL " + x + "\n" for x in (m.outs if m else [])), found_input=False)
+    ctx.cov["label_route_cases"] = n_cases
+    ctx.cov["label_route_components"] = n_comp
+    ctx.cov["label_route_sparse_id_stores"] = n_sparse
+    ctx.cov["label_route_stores_with_several_components"] = n_multi
+    ctx.cov["label_route_scenarios"] = scen
+    ctx.cov["label_route_fcc1_panics"] = n_fcc1
+    ctx.cov["label_route_wall_s"] = round(time.time() - t0, 1)
+    ctx.cov["label_route_rule"] = (
+        "stores AAFramework<usize> built by update histories (planned blocks: chains, cycles, stars, dense blocks, isolated arguments, "
+        "self-attacks, duplicate insertions, then removals and re-insertions of labels; random operation mixes; ICCMA texts with repeated attack "
+        "lines; the framework that never had an argument; all arguments removed); iter_connected_components and merged_connected_components_of("
+        "1-3 random lists, repetitions and the empty list included) + next_connected_component: component frameworks (argument and attack lists in "
+        "order), get_argument(label) of every argument of the store in every component, get_argument(label) of every component argument in the "
+        "store; compared line by line with Proofs/LabelRouteDefs.comp_store / to_local_lab / to_global_lab on the extracted Model.Store, and judged "
+        "alone: global entries are (id,label) pairs of the store with the component argument's label, local/global mutually inverse, component "
+        "labels pairwise distinct, components partition the live ids, attacks translated back are the store's attacks")
+    if sample:
+        ctx.cov["label_route_sample"] = sample
+    if n_fcc1:
+        ctx.notes.append("F-cc-1 (FINDINGS-cc.md, not classified yet): merged_connected_components_of(&[]) panics on the framework that never had "
+                         "an argument (%d generated cases; iter_connected_components returns no component there; the label-route model "
+                         "comp_store renders the same panic, so the two sides agree)" % n_fcc1)
 
 
 def main(ctx):
@@ -9,4 +210,7 @@ def main(ctx):
         more_runs=[("static", 0, "--q DC,DS --cert 1 --exhaustive %d" % 3)],
         rule="acceptance queries WITH certificate (all DC/DS trait implementations x selectable encoders) on all frameworks with <= %d arguments exhaustively and generated frameworks with several components and sparse ids; traces replayed on Model.Solvers; judged by brute force: certificate present exactly for DC-YES / DS-NO, is an extension of the queried semantics (complete for the CO solver) containing / omitting the argument, members are (id,label) pairs of the caller's framework, each once"
              % 3,
+        finish=False, extra_props=("C04labels",),
     )
+    label_route_stage(ctx)
+    ctx.finish()
